@@ -45,6 +45,12 @@ func runC16(c *engine.Ctx) {
 		{"pooled", func() { checkPooledEscape(c, "R25") }},
 		{"deferuse", func() { checkDeferredUseOfResult(c, "R26") }},
 		{"deadline", func() { checkDeadlineCleared(c, "R27") }},
+		{"synchandlers", func() { checkSyncStateHandlers(c, "R28") }},
+		{"counters", func() { checkCounterBalance(c, "R29") }},
+		{"localmaps", func() { checkLocalGuardedMaps(c, "R30") }},
+		{"publish", func() { checkInitBeforePublish(c, "R31") }},
+		{"chancap", func() { checkChannelCapacityClass(c, "R32") }},
+		{"constindex", func() { checkConstIndexBounded(c, "R33") }},
 	}
 	for _, s := range steps {
 		t0 := time.Now()
@@ -517,25 +523,27 @@ func negOrd(o token.Token) token.Token {
 
 // ---- R4 / R8 ----
 
-func c16Handlers(c *engine.Ctx) {
+// handlerReg is one Dispatcher.RegisterHandler call, resolved.
+type handlerReg struct {
+	site    ssa.CallInstruction
+	msgT    types.Type
+	handler *ssa.Function
+	isAsync bool
+	fn      *ssa.Function
+}
+
+func dispatcherRegs(c *engine.Ctx) []handlerReg {
 	p := c.P
 	regH := method(c, "pkg/msg", "Dispatcher", "RegisterHandler")
 	async := funcObj(c, "pkg/msg", "AsyncHandler")
 	if regH == nil || async == nil {
-		return
+		return nil
 	}
-	type reg struct {
-		site    ssa.CallInstruction
-		msgT    types.Type
-		handler *ssa.Function
-		isAsync bool
-		fn      *ssa.Function
-	}
-	var regs []reg
+	var regs []handlerReg
 	for _, f := range p.RepoFuncs() {
 		for _, call := range engine.CallsTo(f, regH) {
 			args := engine.CallArgs(call)
-			r := reg{site: call, fn: f}
+			r := handlerReg{site: call, fn: f}
 			if mi, ok := args[1].(*ssa.MakeInterface); ok {
 				r.msgT = mi.X.Type()
 			}
@@ -558,6 +566,86 @@ func c16Handlers(c *engine.Ctx) {
 			}
 			regs = append(regs, r)
 		}
+	}
+	return regs
+}
+
+// checkSyncStateHandlers (C16.R28, shared with C09.R13, C12.R15, C14.R15, C19.R12): the dispatcher's read loop runs the
+// handlers one after the other, and closes Done() only when it has returned from the last one. Two guarantees hang on
+// that for every handler that changes the session's proxy table: a later message (CloseProxy after NewProxy) takes
+// effect after it, and the session teardown that waits for Done() finds no registration in flight. A handler wrapped
+// in AsyncHandler has neither — so a handler that (transitively) writes Control.proxies or the proxy manager must be
+// registered synchronously.
+func checkSyncStateHandlers(c *engine.Ctx, rule string) {
+	c.Rule(rule, "no message handler registered through msg.AsyncHandler writes the session's proxy table (Control.proxies) or the proxy manager, directly or through the functions it calls: registrations and closes are applied in wire order, and none is in flight when Done() fires")
+	p := c.P
+	proxiesF := field(c, "server", "Control", "proxies")
+	add := method(c, "server/proxy", "Manager", "Add")
+	del := method(c, "server/proxy", "Manager", "Del")
+	if proxiesF == nil {
+		return
+	}
+	var writes func(f *ssa.Function, d int, seen map[*ssa.Function]bool) string
+	writes = func(f *ssa.Function, d int, seen map[*ssa.Function]bool) string {
+		if f == nil || len(f.Blocks) == 0 || d > 4 || seen[f] {
+			return ""
+		}
+		seen[f] = true
+		res := ""
+		engine.ForEachInstr(f, func(in ssa.Instruction) {
+			if res != "" {
+				return
+			}
+			switch x := in.(type) {
+			case *ssa.MapUpdate:
+				if lf, _ := engine.LoadedField(x.Map); lf == proxiesF {
+					res = "writes Control.proxies in " + p.FuncName(f)
+				}
+			case ssa.CallInstruction:
+				if _, isGo := in.(*ssa.Go); isGo {
+					return
+				}
+				if b, ok := x.Common().Value.(*ssa.Builtin); ok && b.Name() == "delete" {
+					if lf, _ := engine.LoadedField(x.Common().Args[0]); lf == proxiesF {
+						res = "deletes from Control.proxies in " + p.FuncName(f)
+					}
+					return
+				}
+				if o := engine.CalleeObj(x); o != nil && (engine.SameFunc(o, add) || engine.SameFunc(o, del)) {
+					res = "calls proxy.Manager." + o.Name() + " in " + p.FuncName(f)
+					return
+				}
+				if cf := engine.CalleeFn(x); cf != nil && cf.Pkg != nil && engine.IsRepoPkg(cf.Pkg.Pkg.Path()) {
+					if w := writes(cf, d+1, seen); w != "" {
+						res = w
+					}
+				}
+			}
+		})
+		return res
+	}
+	n, stateful := 0, 0
+	for _, r := range dispatcherRegs(c) {
+		if r.handler == nil || r.msgT == nil {
+			continue
+		}
+		w := writes(r.handler, 0, map[*ssa.Function]bool{})
+		if w == "" {
+			continue
+		}
+		stateful++
+		n++
+		c.Check(!r.isAsync, p.FuncName(r.fn)+">"+typeShort(r.msgT)+">sync", r.site.Pos(), 2, []string{"handler " + p.FuncName(r.handler) + " " + w},
+			"the handler for %s changes the session's proxy table and is registered synchronously (through AsyncHandler it would run beside the read loop: a CloseProxy could overtake it and it could complete after the session was torn down)", typeShort(r.msgT))
+	}
+	c.Floor(stateful, 2)
+}
+
+func c16Handlers(c *engine.Ctx) {
+	p := c.P
+	regs := dispatcherRegs(c)
+	if regs == nil {
+		return
 	}
 	c.Rule("R4", "the unchecked type assertion on a dispatcher handler's parameter asserts exactly the message type the handler is registered for")
 	for _, r := range regs {
@@ -1509,14 +1597,51 @@ func c16CheckThenAct(c *engine.Ctx, rule string) {
 				if fv := mapField(x.X); fv != nil {
 					reads[fv] = append(reads[fv], in)
 				}
+			case *ssa.Range:
+				if fv := mapField(x.X); fv != nil {
+					reads[fv] = append(reads[fv], in)
+				}
 			case *ssa.MapUpdate:
 				if fv := mapField(x.Map); fv != nil {
 					writes[fv] = append(writes[fv], in)
+				}
+			case *ssa.UnOp:
+				// the table's value handed on as a whole (into a variadic helper such as lo.Values(m.tbl)): a snapshot read
+				if x.Op == token.MUL {
+					if fv := mapField(x); fv != nil && x.Referrers() != nil {
+						for _, r := range *x.Referrers() {
+							if st, ok := r.(*ssa.Store); ok && st.Val == ssa.Value(x) {
+								if _, isIdx := st.Addr.(*ssa.IndexAddr); isIdx {
+									reads[fv] = append(reads[fv], in)
+								}
+							}
+						}
+					}
+				}
+			case *ssa.Store:
+				// the table replaced as a whole (`m.tbl = make(…)`)
+				if fv, _ := engine.LoadedField(x.Addr); fv != nil {
+					if _, isMap := fv.Type().Underlying().(*types.Map); isMap {
+						if _, local := func() (ssa.Value, bool) { _, b := engine.LoadedField(x.Addr); _, isAl := b.(*ssa.Alloc); return nil, isAl }(); !local {
+							writes[fv] = append(writes[fv], in)
+						}
+					}
 				}
 			case ssa.CallInstruction:
 				if b, ok := x.Common().Value.(*ssa.Builtin); ok && b.Name() == "delete" {
 					if fv := mapField(x.Common().Args[0]); fv != nil {
 						writes[fv] = append(writes[fv], in)
+					}
+				} else if _, isB := x.Common().Value.(*ssa.Builtin); !isB {
+					// the table handed to a function that reads it (lo.Values(m.tbl), maps.Keys(m.tbl)): a snapshot
+					for _, a := range x.Common().Args {
+						a = engine.Unwrap(a)
+						if ct, ok := a.(*ssa.ChangeType); ok {
+							a = ct.X
+						}
+						if fv := mapField(a); fv != nil {
+							reads[fv] = append(reads[fv], in)
+						}
 					}
 				}
 			}
@@ -1538,15 +1663,34 @@ func c16CheckThenAct(c *engine.Ctx, rule string) {
 					if !engine.InstrReaches(r, w) {
 						continue
 					}
+					isRead := map[ssa.Instruction]bool{}
+					for _, r2 := range rs {
+						if r2 != r {
+							isRead[r2] = true
+						}
+					}
 					why := engine.QuietPaths(engine.PathCheck{Fn: f, From: r, Sink: engine.Is(w),
 						Event: func(in ssa.Instruction) string {
 							if isUnlock(in) {
 								return "unlock"
 							}
+							if isRead[in] || (in == r) {
+								return "read"
+							}
 							return ""
 						},
 						Pred: func(st *engine.PathState) string {
-							if st.HasEvent("unlock") {
+							// an unlock that is not followed by a fresh look at the table before the update
+							lastUnlock, lastRead := -1, -1
+							for i, e := range st.Events {
+								switch e.Tag {
+								case "unlock":
+									lastUnlock = i
+								case "read":
+									lastRead = i
+								}
+							}
+							if lastUnlock >= 0 && lastRead < lastUnlock {
 								return "a mutex is released between the lookup and the update of " + fv.Name()
 							}
 							return ""
